@@ -136,7 +136,11 @@ func c16(env *Env, rep *Report) {
 			}
 			for _, v := range c16Outcome(alpha, b("token"), b("sc"), kind, hist, rep) {
 				fmt.Println("violation:", v)
-				rep.violate("C16/"+v[0], v[1], rp)
+				sig := "C16/" + v[0]
+				if kind != "proc" {
+					sig += "/" + kind
+				}
+				rep.violate(sig, v[1], rp)
 			}
 		}
 		return
